@@ -23,10 +23,10 @@ import gen_c08 as G
 PROP = "C08"
 RULE = ("coarsen_bins: every valid bin table with 1 chromosome of length <=7 and 2 chromosomes of length <=3 (all compositions; length 4: 25 sampled, all in the thorough tier) x k in {2,3,4,5,n+1}; "
         "_greedy_prune_partition: every non-decreasing edge list from 0 of length 2..5 with values <=5 x maxlen 1..6; "
-        "coarsen_cooler: corpus (D1 longer-last-bin tables, chromosomes shorter than k, empty cooler, empty rows at chunk edges, variable tables whose coarsening looks fixed, bin size 1, one-bin chromosomes) x k in {2,3,5,n+1} x chunksize in {1,2,7,nnz+1} (all 16 combinations for the first 4 corpus coolers, 2 chunk sizes per k for the others), "
+        "coarsen_cooler: corpus (D1 longer-last-bin tables, chromosomes shorter than k, empty cooler, empty rows at chunk edges, variable tables whose coarsening looks fixed, bin size 1, one-bin chromosomes) x k in {2,3,5,n+1} x chunksize in {1,2,7,nnz+1} (all 16 combinations for the first 4 corpus coolers, 1 chunk size per k for the other corpus coolers, 2 for the random ones), "
         "seeded random coolers (fixed / variable / longer-last / variable-that-coarsens-to-fixed tables, 1-4 chromosomes, symmetric and square storage, 9 pixel patterns) x all four k x two chunk sizes, "
         "fixed-width tables of EVERY width 1..60 x k in {2,7} and 1..30 x k in {3,5} (thorough: 1..200 x {2,3,5,7}) at function level (chunk stream of CoolerCoarsener vs exact integer division) and end to end for widths 7,49,98,103,107,161,187,196 + random widths <= 2000 with >= 3 coarse bins per chromosome; nproc=2 and the CLI on a few, chains k1;k2 vs k1*k2 (fixed and variable tables), merge/coarsen interleavings, a second value column with agg max/min/sum incl. the D20 corpus (columns=[count,w], columns=[w]); "
-        "every output judged also by its header attributes (storage-mode, bin-type/size, nbins, nchroms, nnz, sum, format) and by Cooler.matrix(balance=False)[:] vs the (symmetric completion of the) block aggregation; bases in legacy form (11 optional attributes removed one at a time, format-version 2; symmetric and square; merge inputs); LARGE genomes with few bins (total length just below / at / above 2^31 and 2^32, every chromosome < 2^31; fixed bins of 100 Mb..1 Gb and variable tables; symmetric and square; k = 2, 3 and k collapsing every chromosome to one bin; chunk sizes 1/7/nnz+1; nproc 1 and 2; zoomify on the same bases); HISTORIES in one process (the same source and destination URI strings while the source file is rewritten in between: re-binned coarser/finer, other chromsizes, variable widths, fewer/more bins, square, nproc 1 then 2 and 2 then 1, several chunk sizes; a hand-made ladder over two alternating file names), every output judged for the data stored now; every level (copied bases included, k=1) of zoomify_cooler / `cooler zoomify --base-uri` files built from 1, 2 and 3 base coolers in every listing order (bases that are / are not multiples of each other) vs the block aggregation of its own base; fixed parameter scenarios (output URI in a nested group, append into an existing file, same-file in/out, re-run onto an existing group, mode=w, nproc 2/3 with an uneven span count, CLI -p/--append/-a/-o URI, dtypes full/partial dict, lock=, float64 counts, weight bin column on the input, trailing empty rows, CoolerCoarsener batchsize 2/3); non-trivial = nnz>0 and at least 2 old bins; distinct by input hash")
+        "`cooler coarsen` (and one `cooler zoomify`) with every order of 1..3 --field options over count/w/s (source holds all three), each with / without agg= and dtype=, per column vs the requested aggregate (sum by default) of the block and vs the model; every output judged also by its header attributes (storage-mode, bin-type/size, nbins, nchroms, nnz, sum, format) and by Cooler.matrix(balance=False)[:] vs the (symmetric completion of the) block aggregation; bases in legacy form (11 optional attributes removed one at a time, format-version 2; symmetric and square; merge inputs); LARGE genomes with few bins (total length just below / at / above 2^31 and 2^32, every chromosome < 2^31; fixed bins of 100 Mb..1 Gb and variable tables; symmetric and square; k = 2, 3 and k collapsing every chromosome to one bin; chunk sizes 1/7/nnz+1; nproc 1 and 2; zoomify on the same bases); HISTORIES in one process (the same source and destination URI strings while the source file is rewritten in between: re-binned coarser/finer, other chromsizes, variable widths, fewer/more bins, square, nproc 1 then 2 and 2 then 1, several chunk sizes; a hand-made ladder over two alternating file names), every output judged for the data stored now; every level (copied bases included, k=1) of zoomify_cooler / `cooler zoomify --base-uri` files built from 1, 2 and 3 base coolers in every listing order (bases that are / are not multiples of each other) vs the block aggregation of its own base; fixed parameter scenarios (output URI in a nested group, append into an existing file, same-file in/out, re-run onto an existing group, mode=w, nproc 2/3 with an uneven span count, CLI -p/--append/-a/-o URI, dtypes full/partial dict, lock=, float64 counts, weight bin column on the input, trailing empty rows, CoolerCoarsener batchsize 2/3); non-trivial = nnz>0 and at least 2 old bins; distinct by input hash")
 TRUSTED = ["pandas groupby(sort=True).aggregate('sum') is modelled as the canonical aggregate (Model/Pixels.v) and observed through CoolerCoarsener",
            "create() stores the concatenation of the chunk stream (property C01/C02, observed here through the output cooler)",
            "multiprocess.Pool.map is order preserving (source-pattern assertion on coarsen_cooler + nproc=2 runs)"]
@@ -355,7 +355,7 @@ def part_api(ctx):
         ks = [2, 3, 5, nmax + 1]
         css = [1, 2, 7, nnz + 1]
         for k in dict.fromkeys(ks):
-            use = css if (full or thorough) else rng.sample(css, 2)
+            use = css if (full or thorough) else rng.sample(css, 2 if ci >= len(CORPUS) else 1)
             for cs in dict.fromkeys(use):
                 runs.append((ci, {"fn": "coarsen_cooler", "widths": widths, "symmetric": symm, "pixels": pixels,
                                   "k": k, "chunksize": cs, "nproc": 1, "note": note}))
@@ -1351,6 +1351,147 @@ def part_large(ctx):
     return len(runs) + len(zooms)
 
 
+# -------- part 11: `cooler coarsen` / `cooler zoomify` with every arrangement of 1..3 --field options
+F_WIDTHS = [[10] * 6 + [4], [10] * 4]
+F_COLS = ("count", "w", "s")
+
+
+def field_source(rng):
+    n = sum(len(w) for w in F_WIDTHS)
+    px = [list(p) for p in G.random_pixels(rng, n, True, "dense", maxcount=30)]
+    cols = {"count": [p[2] for p in px], "w": [rng.randint(-9, 40) for _ in px], "s": [rng.randint(-50, 50) for _ in px]}
+    return px, cols
+
+
+def field_args(fields):
+    args = []
+    for name, agg, dt in fields:
+        props = ([f"dtype={dt}"] if dt else []) + ([f"agg={agg}"] if agg else [])
+        if len(props) == 2 and hash((name, agg)) % 2:
+            props.reverse()
+        args += ["--field", name + (":" + ",".join(props) if props else "")]
+    return args
+
+
+def field_run(tmpdir, tag, case):
+    """returns {column: (dtype name, [[b1,b2,value]...])} of the output (level for zoomify)"""
+    import cooler
+    from cooler.cli import cli
+    from click.testing import CliRunner
+    blocks = blocks_from_widths(F_WIDTHS)
+    a, o = tmpdir / f"{tag}.cool", tmpdir / f"{tag}_o.cool"
+    px, cols = case["pixels"], case["cols"]
+    fields = [tuple(f) for f in case["fields"]]
+
+    def go():
+        G.make_cooler(a, blocks, px, True, extra=cols["w"], more={"s": cols["s"]})      # w and s are in the source whether requested or not
+        if case["cmd"] == "zoomify":
+            r = CliRunner().invoke(cli, ["zoomify", "-o", str(o), "-c", str(case["chunksize"]), "-r", "20,40"] + field_args(fields) + [str(a)])
+            uris = {20: f"{o}::resolutions/20", 40: f"{o}::resolutions/40"}
+        else:
+            r = CliRunner().invoke(cli, ["coarsen", "-k", str(case["k"]), "-c", str(case["chunksize"]), "-o", str(o)] + field_args(fields) + [str(a)])
+            uris = {case["k"] * 10: str(o)}
+        if r.exit_code != 0:
+            raise RuntimeError(f"exit {r.exit_code}: {r.exception!r}")
+        out = {}
+        for res_, uri in uris.items():
+            p = cooler.Cooler(uri).pixels()[:]
+            keys = [[int(x), int(y)] for x, y in zip(p["bin1_id"], p["bin2_id"])]
+            d_ = {}
+            for c in p.columns:
+                if c in ("bin1_id", "bin2_id"):
+                    continue
+                conv = float if p[c].dtype.kind == "f" else int
+                d_[c] = (str(p[c].dtype), [k_ + [conv(v)] for k_, v in zip(keys, p[c].values)])
+            out[res_] = d_
+        return out
+    st, res = G.guarded(go, 120)
+    for p in (a, o):
+        if p.exists():
+            os.remove(p)
+    return st, res
+
+
+def field_expected(case, factor):
+    """per requested column: the requested aggregate (sum when none is given) of the block, in the requested or
+    the source dtype"""
+    blocks = blocks_from_widths(F_WIDTHS)
+    exp = {}
+    for name, agg, dt in [tuple(f) for f in case["fields"]]:
+        rows = [[p[0], p[1], v] for p, v in zip(case["pixels"], case["cols"][name])]
+        e = G.oracle_pixels(blocks, rows, factor, agg or "sum")
+        want_dt = dt or ("int32" if name == "count" else "int64")
+        conv = float if want_dt.startswith("float") else int
+        exp[name] = (want_dt, [[x, y, conv(v)] for x, y, v in e])
+    return exp
+
+
+def field_bad(case, st, res):
+    if st != "ok":
+        return {"what": "the command failed", "status": st, "type": res}
+    for res_, got in sorted(res.items()):
+        exp = field_expected(case, res_ // 10)
+        if sorted(got) != sorted(exp):
+            return {"what": "value columns of the output", "got": sorted(got), "expected": sorted(exp), "level": res_}
+        for c in exp:
+            if got[c] != exp[c]:
+                return {"what": f"column {c}: not the requested aggregate / dtype", "level": res_, "got_dtype": got[c][0], "expected_dtype": exp[c][0],
+                        "got": got[c][1][:10], "expected": exp[c][1][:10]}
+    return None
+
+
+def part_cli_fields(ctx):
+    thorough = ctx.tier == "thorough"
+    rng = ctx.rng
+    tmpdir = ctx.tmp / "fields"
+    tmpdir.mkdir(exist_ok=True)
+    px, cols = field_source(rng)
+    aggs = ["max", "min", "sum"]
+    cases = []
+
+    def add(order, pattern, cmd="coarsen"):
+        fields = []
+        for name, has in zip(order, pattern):
+            dt = rng.choice([None, None, "float64"] + (["int64"] if name == "count" else []))
+            fields.append([name, rng.choice(aggs) if has else None, dt])
+        cases.append({"fn": f"cooler {cmd} --field arrangements", "cmd": cmd, "fields": fields, "pixels": px, "cols": cols,
+                      "k": rng.choice([2, 3]), "chunksize": rng.choice([1, 7, 1000])})
+    for n in (1, 2, 3):
+        for order in itertools.permutations(F_COLS, n):
+            pats = list(itertools.product([False, True], repeat=n))
+            if n == 3 and not thorough:      # every order, three with/without-agg patterns each (one at least mixed)
+                mixed = [p for p in pats if 0 < sum(p) < 3]
+                pats = rng.sample(mixed, 2) + [rng.choice([(False,) * 3, (True,) * 3])]
+            for pat in pats:
+                add(order, pat)
+    # the defect class in its simplest form, always present: plain count first, an aggregate on a later column
+    cases.append({"fn": "cooler coarsen --field arrangements", "cmd": "coarsen", "fields": [["count", None, None], ["w", "max", None]],
+                  "pixels": px, "cols": cols, "k": 2, "chunksize": 7})
+    cases.append({"fn": "cooler zoomify --field arrangements", "cmd": "zoomify", "fields": [["count", None, None], ["w", "max", None], ["s", None, "float64"]],
+                  "pixels": px, "cols": cols, "k": 2, "chunksize": 7})
+    # the model per (column, aggregate, factor): coarsen_cooler_g (agg_of op), sum as the default
+    blocks = blocks_from_widths(F_WIDTHS)
+    t, sz = G.coq_bins(G.flat_of(blocks)), C.zl(G.sizes_of(blocks))
+    need = sorted({(f[0], f[1] or "sum", fac) for c in cases for f in c["fields"] for fac in ((2, 4) if c["cmd"] == "zoomify" else (c["k"],))})
+    exprs = [f"snd (coarsen_cooler_g {G.coq_agg(agg)} {t} {sz} {G.coq_pixels([[p[0], p[1], v] for p, v in zip(px, cols[name])])} {C.z(fac)} 7 1)"
+             for name, agg, fac in need]
+    model = dict(zip(need, [[list(p) for p in mo] for mo in C.coq_eval(HDR, exprs, tmpdir=ctx.tmp / "fieldsv")]))
+    for i, case in enumerate(cases):
+        nagg = sum(1 for f in case["fields"] if f[1])
+        ctx.case(case, nontrivial=len(case["fields"]) > 1 and 0 < nagg < len(case["fields"]), kind=f"cli-fields:{len(case['fields'])}:{nagg}agg")
+        st, res = field_run(tmpdir, f"f{i}", case)
+        if st == "ok":
+            for res_, got in res.items():
+                for name, agg, dt in [tuple(f) for f in case["fields"]]:
+                    if name in got:
+                        ctx.compare(f"--field {name} (model with the requested aggregate)", case,
+                                    [[x, y, int(v)] for x, y, v in got[name][1]], model[(name, agg or "sum", res_ // 10)])
+        bad = field_bad(case, st, res)
+        if bad:
+            ctx.fail(case, bad, None)
+    return len(cases)
+
+
 # ----------------------------------------------------------------------- run
 def run(ctx):
     import time
@@ -1358,7 +1499,7 @@ def run(ctx):
     scopes, times = {}, {}
     for name, fn in (("coarsen_bins_cases", part_bins), ("prune_cases", part_prune), ("api_runs", part_api),
                      ("width_sweep_runs", part_widths), ("chains", part_chain), ("merge_interleavings", part_merge),
-                     ("agg_runs", part_agg), ("param_scenarios", part_params), ("multires_levels", part_multires), ("history_steps", part_history), ("large_genome_runs", part_large)):
+                     ("agg_runs", part_agg), ("param_scenarios", part_params), ("multires_levels", part_multires), ("history_steps", part_history), ("large_genome_runs", part_large), ("cli_field_arrangements", part_cli_fields)):
         t0 = time.time()
         scopes[name] = fn(ctx)
         times[name] = round(time.time() - t0, 1)
@@ -1372,6 +1513,9 @@ def replay(ctx, case):
     tmpdir = ctx.tmp
     if fn == "param-scenario":
         return run_scenario(tmpdir, case["label"], SCENARIOS) is None
+    if fn.endswith("--field arrangements"):
+        st, res = field_run(tmpdir, "replay", case)
+        return field_bad(case, st, res) is None
     if fn == "history":
         for i, status, res, cur in history_run(tmpdir, case["steps"]):
             if status != "ok" or oracle_check(dict(case["steps"][i], pixels=cur), res):
